@@ -41,6 +41,14 @@ Init ==
      /\ hist = <<>> /\ note = "" /\ hslv = (IF mode = "acc" THEN ToHsl(col) ELSE NONE)
   \/ /\ mode = "acc" /\ arg \in Starts /\ col = arg /\ hist = <<>> /\ note = "" /\ hslv = (IF mode = "acc" THEN ToHsl(col) ELSE NONE)
 
+  \* every 8-bit value of every component (exhaustive per component), written onto two start colours
+  \/ /\ mode = "acc" /\ arg \in {<<51, 102, 153, 255>>, <<200, 100, 50, 64>>} /\ note = ""
+     /\ \E comp \in {"red", "green", "blue", "alpha"}, v \in 0..255 :
+          /\ hist = <<<<comp, v>>>>
+          /\ col = CASE comp = "red" -> <<v, arg[2], arg[3], arg[4]>> [] comp = "green" -> <<arg[1], v, arg[3], arg[4]>>
+                      [] comp = "blue" -> <<arg[1], arg[2], v, arg[4]>> [] comp = "alpha" -> <<arg[1], arg[2], arg[3], v>>
+     /\ hslv = ToHsl(col)
+
 Set(name, v, c) == hist' = Append(hist, <<name, v>>) /\ col' = c /\ note' = ""
 SetN(name, v, c, n) == hist' = Append(hist, <<name, v>>) /\ col' = c /\ note' = n
 Next ==
